@@ -149,7 +149,9 @@ func c03Gen(r *kit.Rand, idx int, tiny []byte) c03Case {
 				// well-formed challenge: token endpoint is served and the retry must go through
 				f = Fault{Kind: kit.Pick(r, []string{"manifest", "head", "blobget"}), Nth: r.Range(1, 2), Act: "challenge", Str: "GOOD"}
 			case 3:
-				f = Fault{Kind: "manifest", Nth: 1, Act: kit.Pick(r, []string{"truncate", "garbage", "reset"}), Arg: int64(r.Intn(60)), Str: kit.Pick(r, []string{"", "{", "null", "[]", `{"layers":null}`, `{"layers":[{"digest":"x"}]}`, `{"config":{"digest":"sha256:zz"}}`, "<html>"})}
+				f = Fault{Kind: "manifest", Nth: 1, Act: kit.Pick(r, []string{"truncate", "garbage", "reset"}), Arg: int64(r.Intn(60)), Str: kit.Pick(r, []string{"", "{", "null", "[]", `{"layers":null}`, `{"layers":[{"digest":"x"}]}`, `{"config":{"digest":"sha256:zz"}}`, "<html>",
+					`{"layers":[{"digest":"","size":5}]}`, `{"layers":[{}]}`, `{"layers":[null]}`, `{"layers":[{"digest":"sha256:"}]}`, `{"layers":[{"digest":"sha256-0000000000000000000000000000000000000000000000000000000000000000"}]}`,
+					`{"config":{"digest":""},"layers":[]}`, `{"layers":[{"digest":"sha256:0000000000000000000000000000000000000000000000000000000000000000","size":-1}]}`, `{"layers":"x"}`, `{"schemaVersion":"two"}`})}
 			case 4:
 				f = Fault{Kind: "head", Nth: r.Range(1, 3), Act: kit.Pick(r, []string{"bad-length", "no-length", "reset"}), Arg: int64(kit.Pick(r, []int{-1, 1, -100, 100, 7}))}
 			case 5:
